@@ -71,7 +71,8 @@ fn main() {
             let mut parent = vec![Event { id: "c".into(), session_id: "parent".into(), timestamp_ms: 0, seq: 0, kind: EventKind::ContinuityCreated { workspace: "ws".into(), title: None } }];
             for (i, k) in codes.iter().enumerate() { parent.push(frame(i as u64 + 1, *k)); }
             let head = parent.last().unwrap().seq;
-            let mut selectors: Vec<(Option<String>, Option<u64>)> = vec![(None, None), (Some("a".into()), None), (Some("b".into()), None), (Some("a".into()), Some(0))];
+            let mut selectors: Vec<(Option<String>, Option<u64>)> = vec![(None, None), (Some("a".into()), None), (Some("b".into()), None), (Some("a".into()), Some(0)), (Some("c".into()), None)];
+            for e in parent.iter().filter(|e| !is_msg(e)).take(2) { selectors.push((Some(e.id.clone()), None)); }
             for s in 0..=head + 1 { selectors.push((None, Some(s))); }
             for (from_mid, from_seq) in selectors {
                 let store = ContinuityStore { workspace_root: PathBuf, event_log: EventLog { appended: RefCell::new(Vec::new()) }, stream_cache: ContinuityStreamCache,
@@ -87,6 +88,9 @@ fn main() {
                     Err(_) => { if !written.is_empty() && from_mid.is_some() && from_seq.is_some() { problem = Some("both selectors given but frames were written".into()); } }
                     Ok((child, cut, mid)) => {
                         if from_mid.is_some() && from_seq.is_some() { problem = Some("both selectors accepted".into()); }
+                        if let (Some(m), None) = (&from_mid, from_seq) { if !parent.iter().any(|e| is_msg(e) && e.id == *m) {
+                            problem = Some(format!("recorded cut at message id {m:?}, which names no message of the source thread")); } }
+                        if problem.is_none() {
                         // expected cut / message id from the property statement
                         let (ecut, emid): (u64, Option<String>) = if let Some(s) = from_seq {
                             (s, parent.iter().rev().find(|e| is_msg(e) && e.seq <= s).map(|e| e.id.clone()))
@@ -101,6 +105,7 @@ fn main() {
                             || !(matches!(&written[1].kind, EventKind::ContinuityBranched { parent_seq, parent_message_id, .. } if *parent_seq == *cut && parent_message_id == mid)
                                  || matches!(&written[1].kind, EventKind::ContinuityHandoffCreated { from_seq: fs, from_message_id: fm, summary_artifact_id, .. } if *fs == *cut && fm == mid && summary_artifact_id.is_some())) {
                             problem = Some(format!("the new thread's first two frames are not creation + lineage record of the returned cut with a resolvable summary: wrote {} frame(s)", written.len()));
+                        }
                         }
                     }
                 }
